@@ -65,6 +65,8 @@ class Event:
         self.inlined = False
         self.seq = -1
         self.stmt_id = ctx.stmt_id
+        self.inner_stmt_id = ctx.inner_stmt_id       # the statement inside a helper expanded in place (== stmt_id outside helpers)
+        self.inl_path: Tuple[int, ...] = ctx.inl_path   # which expansions of transparent helpers the event lies in (outermost first)
 
     @property
     def cond(self) -> Term:
@@ -100,6 +102,8 @@ class Ctx:
         self.chain: Tuple[Tuple[str, int], ...] = ()
         self.depth = depth
         self.stmt_id = 0
+        self.inner_stmt_id = 0
+        self.inl_path: Tuple[int, ...] = ()
         self.freeze = False                         # transparent helper: events belong to the caller's statement
         self.captured: Optional[List["Event"]] = None   # returns of a transparent helper
         self.inl: Tuple[str, ...] = ()              # transparent helpers currently being expanded (recursion guard)
@@ -112,6 +116,8 @@ class Ctx:
         c.else_of = list(self.else_of)
         c.withs = list(self.withs)
         c.chain = self.chain + ((self.fi.qualname, line),)
+        c.inl_path = self.inl_path
+        c.inner_stmt_id = self.inner_stmt_id
         return c
 
 
@@ -124,6 +130,9 @@ class Summary:
         self.unknown = unknown     # constructs the walker did not model (analysis left the fragment)
         self.tests: Dict[int, Term] = {}    # id(If/While node) -> normalised test
         self.iters: Dict[int, Term] = {}    # id(For node) -> normalised iteration domain
+        self.tests2: Dict[Tuple[Tuple[int, ...], int], Term] = {}
+        self.inlinings: Dict[int, FuncInfo] = {}
+        self.inl_anchor: Dict[int, Tuple[Tuple[int, ...], int, int]] = {}
         self.falls = True                   # can execution run off the end of the body (implicit `return None`)?
         self.end_pc: Tuple[Conj, ...] = ()  # the conditions under which it does
 
@@ -300,6 +309,10 @@ class _Run:
         self.builders: Dict[Term, List[Tuple[Term, Tuple[Any, ...], Tuple[Conj, ...]]]] = {}
         self.dirty: Set[Term] = set()
         self.seeds: Dict[Term, Term] = {}      # seeded builders: container identity -> initial (fresh) list value
+        self._inl_n = 0
+        self.inlinings: Dict[int, FuncInfo] = {}                 # expansion id -> helper expanded in place
+        self.inl_anchor: Dict[int, Tuple[Tuple[int, ...], int, int]] = {}   # expansion id -> (path, statement, event index) of the call
+        self.tests2: Dict[Tuple[Tuple[int, ...], int], Term] = {}  # (expansion path, id(If/While node)) -> normalised test
         self.tests: Dict[int, Term] = {}
         self.iters: Dict[int, Term] = {}
 
@@ -315,10 +328,16 @@ class _Run:
         sm.falls = "fall" in out
         sm.end_pc = tuple(self.cur.pc) if sm.falls else ()
         sm.tests = self.tests
+        sm.tests2 = self.tests2
+        sm.inlinings = self.inlinings
+        sm.inl_anchor = self.inl_anchor
         sm.iters = self.iters
         return sm
 
     def param_scope(self, fi: FuncInfo, outer: Optional[Scope]) -> Scope:
+        if outer is None and fi.parent is not None:
+            # a nested function summarised on its own: its free variables are the enclosing function's parameters (with their types)
+            outer = self.param_scope(fi.parent, None)
         scope = Scope(fi.module, fi, outer=outer)
         a = fi.node.args  # type: ignore
         allp = a.posonlyargs + a.args + a.kwonlyargs
@@ -457,9 +476,18 @@ class _Run:
         n_pc = len(ctx.pc) + len(self.norm.guard_stack) + sum(len(conds) for _d, conds in self.norm.comp_stack)
         n_loops = len(ctx.loops) + len(self.norm.comp_stack)
         captured: List[Event] = []
+        n_ev = len(self.events)
+        n_tries = len(ctx.tries)
         ok = self.inline(callee, f, args, kwargs, line, None, transparent=True, captured=captured)
         if not ok:
             return None
+        # the caller goes on only if the helper did not raise: what survives its raise statements is a condition of everything after
+        if not self.norm.guard_stack and not self.norm.comp_stack:
+            for e in self.events[n_ev:]:
+                if e.kind in ("raise", "assert") and len(e.tries) == n_tries and not e.loops[n_loops:]:
+                    rel = [c.term for c in e.pc[n_pc:]]
+                    if rel:
+                        ctx.pc.append(Conj(mk_not(mk_and(rel)), "raise-surv", line))
         # value of the helper: its returns folded into one conditional term (conditions relative to the call site).
         # Returns inside a loop of the helper make a first-match search: ("first", domain, ((condition, value), ...), default) -
         # the value for the first element satisfying one of the exit conditions, else the value of the code after the loop.
@@ -568,6 +596,10 @@ class _Run:
             self.cur.depth = ctx.depth
             self.cur.freeze = True
             self.cur.stmt_id = ctx.stmt_id
+            self._inl_n += 1
+            self.cur.inl_path = ctx.inl_path + (self._inl_n,)
+            self.inlinings[self._inl_n] = callee
+            self.inl_anchor[self._inl_n] = (ctx.inl_path, ctx.inner_stmt_id if ctx.inl_path else ctx.stmt_id, len(self.events))
             self.cur.captured = captured
             self.cur.inl = ctx.inl + (callee.qualname,)
         else:
@@ -611,6 +643,7 @@ class _Run:
     def stmt(self, st: ast.stmt) -> Set[str]:
         if not self.cur.freeze:
             self.cur.stmt_id = id(st)
+        self.cur.inner_stmt_id = id(st)
         m = getattr(self, "s_" + type(st).__name__, None)
         if m is None:
             self.unknown.append("%s:%d %s" % (self.cur.fi.module.path, st.lineno, type(st).__name__))
@@ -811,8 +844,9 @@ class _Run:
 
     def s_If(self, st: ast.If) -> Set[str]:
         ctx = self.cur
-        cond = self.N(st.test)
+        cond = self.norm.truth(self.N(st.test), ctx.scope)
         self.tests[id(st)] = cond
+        self.tests2[(ctx.inl_path, id(st))] = cond
         base_env = dict(ctx.scope.env)
         base_pc = list(ctx.pc)
         # true branch
@@ -880,6 +914,19 @@ class _Run:
         it = self.N(st.iter)
         if it[0] == "comp" and it[1] == "list" and it[3] and not st.orelse:
             return self._for_over_comp(st, it)
+        if it[0] in ("tuple", "list") and 0 < len(it[1]) <= 16 and not contains_jump(st.body, (ast.Break, ast.Continue)):
+            # a loop over a literal (e.g. a small registry of (tag, class) pairs): the iterations one after the other
+            out_u: Set[str] = {"fall"}
+            for elem in it[1]:
+                if "fall" not in out_u:
+                    break
+                out_u.discard("fall")
+                self.assign_target(st.target, elem, st.lineno)
+                out_u |= self.block(st.body)
+            if "fall" in out_u and st.orelse:
+                out_u.discard("fall")
+                out_u |= self.block(st.orelse)
+            return out_u
         dom, _roles = self.norm.iter_domain(it)
         self.iters[id(st)] = dom
         names = assigned_names(st.body) | assigned_names([ast.Assign(targets=[st.target], value=ast.Constant(0), lineno=st.lineno)])
@@ -1028,9 +1075,12 @@ class _Run:
         ctx = self.cur
         names = assigned_names(st.body)
         self._havoc(names)
-        self.cur.stmt_id = id(st)
+        if not self.cur.freeze:
+            self.cur.stmt_id = id(st)
+        self.cur.inner_stmt_id = id(st)
         cond = self.N(st.test)
         self.tests[id(st)] = cond
+        self.tests2[(ctx.inl_path, id(st))] = cond
         base_pc = list(ctx.pc)
         ctx.loops.append(("while", cond, contains_jump(st.body, (ast.Break, ast.Return)), len(ctx.pc)))
         if cond != C(True):
@@ -1154,18 +1204,20 @@ def try_inside_loops(ev: Event) -> bool:
 
 def after_completion(ev: Event, ret: Event) -> bool:
     """`ret` is only reached when the call `ev` inside a try body completed normally: later in the same try body under the same
-    conditions, or in the else-block of that try statement."""
+    conditions, or in the else-block of that try statement, or behind the try statement when every handler leaves.
+    (Conditions that merely record that an earlier raise / assert did not fire are not branch conditions.)"""
     if not ev.tries or ev.seq >= ret.seq:
         return False
-    if [c.term for c in ev.pc] != [c.term for c in ret.pc][:len(ev.pc)]:
+    epc = [c.term for c in ev.pc if c.prov != "raise-surv"]
+    rpc = [c.term for c in ret.pc if c.prov != "raise-surv"]
+    if epc != rpc[:len(epc)]:
         return False
-    if ev.tries == ret.tries and len(ev.pc) == len(ret.pc):
+    same = len(epc) == len(rpc)
+    if ev.tries == ret.tries and same:
         return True
-    if ev.tries[:-1] == ret.tries and ev.tries[-1] in ret.else_of and len(ev.pc) == len(ret.pc):
+    if ev.tries[:-1] == ret.tries and ev.tries[-1] in ret.else_of and same:
         return True
-    # after the whole try statement, when no handler completes normally (each returns / raises): only the normal completion of the
-    # try body gets there
-    return ev.tries[:-1] == ret.tries and not ev.tries[-1].handler_falls and not ev.tries[-1].node.finalbody and len(ev.pc) == len(ret.pc) \
+    return ev.tries[:-1] == ret.tries and not ev.tries[-1].handler_falls and not ev.tries[-1].node.finalbody and same \
         and ret.line > (ev.tries[-1].node.end_lineno or 0)
 
 
